@@ -250,6 +250,12 @@ pub fn run(ctx: &Ctx) -> Report {
                 }
                 try_doc(&d, valid, rep, what);
             }
+            // sequence (array) form with invalid contents: whatever the implementation makes of the
+            // array form, it must not yield a sketch that breaks the invariants
+            for (regs, bb) in [(regs_json(3, 1), json!(b)), (regs_json(m, 1), json!(40)), (regs_json(m / 2, 1), json!(b)), (regs_json(16, 1), json!(3)), (regs_json(m, 1), json!(b + 1)), (regs_json(0, 0), json!(b))] {
+                let d = format!("[{},{},{}]", regs, bb, bhs);
+                try_doc(&d, false, rep, "sequence form with invalid b / length");
+            }
             let good = doc(&good_regs, &json!(b), &bh);
             for cut in [1usize, good.len() / 2, good.len() - 1, good.len() - 2] {
                 try_doc(&good[..cut], false, rep, "truncated text");
